@@ -15,6 +15,6 @@ def run(ck):
     ex = _sys.run_sys(ck, "c12")
     ck.evaluations = ev + ck.stats.get("direct_clauses_evaluated", 0)
     ck.distinct = di + ck.stats.get("scenarios", 0)
-    ck.rule = rule + "; plus whole broker (Engine + MemoryBackend over TCP loopback): the will (QoS 0/1/2) of a client ending by close / protocol error reaches an idle observer and an observer whose window is used up and whose queue is full at that moment exactly once (will_delivered), the backend is handed the will once (will_once), no will after DISCONNECT; keep-alive over TCP: clients that fall silent (keep-alive 1 s requested, or 60 s requested and 1 s imposed by the backend) are dropped and their wills published not before 1.35 s and in bounded time (keepalive_will), a client sending PINGREQ every 200 ms stays (keepalive_alive), a silent client subscribed to a topic fed every 100 ms is dropped all the same; observers of a will (QoS 0/1/2, retained or not): online, offline with a persistent session (exactly once after the reconnect for QoS>0), subscribing later (replayed with the retain flag iff retained) (will_delivered, will_retained)"
+    ck.rule = rule + "; plus whole broker (Engine + MemoryBackend over TCP loopback): the will (QoS 0/1/2) of a client ending by close / protocol error reaches an idle observer and an observer whose window is used up and whose queue is full at that moment exactly once (will_delivered), the backend is handed the will once (will_once), no will after DISCONNECT; keep-alive over TCP: clients that fall silent (keep-alive 1 s requested, or 60 s requested and 1 s imposed by the backend) are dropped and their wills published not before 1.35 s and in bounded time (keepalive_will), a client sending PINGREQ every 200 ms stays (keepalive_alive), a silent client subscribed to a topic fed every 100 ms is dropped all the same; observers of a will (QoS 0/1/2, retained or not): online, offline with a persistent session (exactly once after the reconnect for QoS>0), subscribing later (replayed with the retain flag iff retained) (will_delivered, will_retained); a client that stopped reading, with the broker's write towards it blocked, is still ended by its keep-alive and its will published (keepalive_will); a client with a retained will dying while an observer's SUBSCRIBE is being acknowledged (hook inside the acknowledgement): the observer gets the will exactly once (will_delivered)"
     if ex:
         ck.samples = ck.samples[:4] + [l for l in ex if l.startswith("direct ")][:3]
